@@ -32,6 +32,31 @@ ASAN = ["-fsanitize=address,undefined", "-fno-sanitize-recover=all"]
 MSAN = ["-fsanitize=memory", "-fno-sanitize-recover=all"]
 
 
+NEEDED_FUNCS = ["trx_data_rx_cb", "trx_if_handle_phyif_burst_req", "trx_ctrl_read_cb", "trx_if_handle_phyif_cmd", "trx_ctrl_cmd", "trx_if_open"]
+
+
+def extra_sources():
+    """-DTRX_IF_EXTRAn="file" for the files of src/host/trxcon/src that define a function of the TRX interface which trx_if.c
+    itself does not define in this tree (a section of the file moved into a file of its own)"""
+    def defines(path, f):
+        try:
+            txt = re.sub(r"/\*.*?\*/", "", open(path, errors="replace").read(), flags=re.S)
+        except OSError:
+            return False
+        return re.search(r"^[A-Za-z_][^;{}()]*\b%s\s*\([^;{}]*\)\s*\{" % f, txt, re.M) is not None
+    d = os.path.dirname(TRX_IF_C)
+    extra = []
+    for f in NEEDED_FUNCS:
+        if defines(TRX_IF_C, f):
+            continue
+        for fn in sorted(os.listdir(d)):
+            p = os.path.join(d, fn)
+            if fn.endswith(".c") and p != TRX_IF_C and p not in extra and defines(p, f):
+                extra.append(p)
+                break
+    return ['-DTRX_IF_EXTRA%d="%s"' % (i + 1, p) for i, p in enumerate(extra[:2])]
+
+
 def _build(run, tag, san):
     def cc(src, name, extra=()):
         out = os.path.join(run.scratch, "%s_%s.o" % (name, tag))
@@ -47,7 +72,7 @@ def _build(run, tag, san):
            ["-I", os.path.join(cbuild.SHIM, "cfg/a/b"), "-I", cbuild.LIBOSMO_INC]),
         cc(os.path.join(HDIR, "shim_impl.c"), "tc_shim_impl", inc),
         # trxcon_harness.c #includes the REAL trx_if.c of the tree under test, unchanged
-        cc(os.path.join(HDIR, "trxcon_harness.c"), "tc_harness", inc + ['-DTRX_IF_C="%s"' % TRX_IF_C]),
+        cc(os.path.join(HDIR, "trxcon_harness.c"), "tc_harness", inc + ['-DTRX_IF_C="%s"' % TRX_IF_C] + extra_sources()),
     ]
     exe = os.path.join(run.scratch, "trxcon_harness_%s.bin" % tag)
     rc, o = vf.sh(["clang"] + san + objs + ["-o", exe], timeout=600)
@@ -469,7 +494,45 @@ def correspond(run, corr, parts=PARTS):
     noelog = lambda a: re.sub(r"(\| st \d+ \d+ -?\d+ -?\d+) [01] \|", r"\1 |", a)
     log_only = {r for r, a, b in zip(reqs, impl, model) if a != b and noelog(a) == noelog(b)}
     corr.distribution["trxcon: answers differing only in the error-log flag (outside the properties)"] = len(log_only)
-    corr.compare(reqs, impl, model, in_domain=lambda r: r not in log_only, model_ub=lambda b: b == "CRASH")
+    def txd_valid(r):
+        t = r.split()
+        if t[0] != "tc.txd":
+            return True
+        try:
+            return int(t[1]) < 8 and int(t[2]) < H and int(t[4]) in (148, 444) and len(t[5]) == 2 * int(t[4]) and set(bytes.fromhex(t[5])) <= {0, 1}
+        except (ValueError, IndexError):
+            return False
+    def cmd_valid(r):
+        # a hopping list of more than 64 channels cannot come out of the L1CTL messages (the Mobile Allocation has 64 entries)
+        t = r.split()
+        if t[:2] == ["tc.cmd", "SETFREQ_H1"]:
+            try:
+                return int(t[4]) <= 64
+            except (ValueError, IndexError):
+                return False
+        return True
+    def rsp_valid(r):
+        # a response whose verb is only a proper PREFIX of the pending command's verb (`RSP POWEROF 0` for POWEROFF, `RSP  0`)
+        # is no transceiver's reply to anything: whether the prefix comparison of the unchanged code lets it pass is not
+        # what C05 / C14 speak about (no crash is still demanded by the oracle)
+        t = r.split()
+        if t[0] != "tc.rsp" or t[1] == "-":
+            return True
+        try:
+            cmd = bytes.fromhex(t[1].split(",")[0])
+            rsp = bytes.fromhex(t[3])
+        except (ValueError, IndexError):
+            return True
+        # the pending command is trxcon's own: only trx_ctrl_cmd() queues, and it writes `CMD <VERB>[ <arguments>]`; an octet
+        # string of another shape in the queue is not an input of anybody (the harness still runs it: evidence)
+        if not re.fullmatch(rb"CMD [A-Z][A-Z0-9_]*( [\x20-\x7e]*)?", cmd):
+            return False
+        if not rsp.startswith(b"RSP "):
+            return True
+        cv = cmd[4:].split(b" ")[0]
+        rv = rsp[4:].split(b" ")[0].rstrip(b"\0")
+        return not (rv != cv and cv.startswith(rv))
+    corr.compare(reqs, impl, model, in_domain=lambda r: r not in log_only and txd_valid(r) and cmd_valid(r) and rsp_valid(r), model_ub=lambda b: b == "CRASH")
     for r, a in zip(reqs, impl):
         v = r.split(" ", 1)[0]
         corr.count(r, "%s:%s" % (v, outcome_class(v, a)))
@@ -584,8 +647,10 @@ def oracle(run, corr, deep, parts=PARTS):
         robust("trxcon-rx", [r for r in gen_rxd(rng, n)])
 
     if "txd" in parts:
-        cases = [(rng.randrange(8), pick(rng, [0, H - 1, 2 ** 32 - 1, rng.randrange(2 ** 32)]), rng.randrange(256),
-                  [rng.randrange(2) for _ in range(pick(rng, [0, 148, 444, rng.randrange(507)]))]) for _ in range(n)]
+        # valid Tx messages: a frame number of the hyperframe, 148 or 444 hard bits (what trxcon does with other burst
+        # requests is compared with the model in the correspondence, as evidence)
+        cases = [(rng.randrange(8), pick(rng, [0, 1, H - 1, rng.randrange(H)]), rng.randrange(256),
+                  [rng.randrange(2) for _ in range(pick(rng, [148, 444]))]) for _ in range(n)]
         reqs = ["tc.txd %d %d %d %d %s" % (tn, fn, pwr, len(bits), hx(bytes(bits))) for tn, fn, pwr, bits in cases]
         out = vf.run_lines([exe], reqs)
         for (tn, fn, pwr, bits), r, a in zip(cases, reqs, out):
